@@ -40,6 +40,21 @@ Theorem C16_history : forall acore, reads_prepared_only acore -> forall pre c x 
 Proof. exact history_slice. Qed.
 Print Assumptions C16_history.
 
+(* kalign_write_msa is read-only: a write leaves every object and the ambient state as they were, so the fresh process
+   need not repeat the writes of the history either - the call gives what it gives after the slice of the write-free history *)
+Theorem C16_write_is_read_only : forall acore x h fmt b d v, fst (step acore x (CWrite h fmt b d v)) = x.
+Proof. exact step_write_read_only. Qed.
+Print Assumptions C16_write_is_read_only.
+
+Theorem C16_history_without_writes : forall acore, reads_prepared_only acore -> forall pre c x y,
+  (forall h, snd x h = snd y h) ->
+  snd (step acore (fst (run_history acore x pre)) c) =
+  snd (step acore (fst (run_history acore y (slice (handles c) (drop_writes pre)))) c).
+Proof.
+  intros acore Hc pre c x y Hxy. rewrite (run_history_drop_writes acore pre x). apply (history_slice acore Hc). exact Hxy.
+Qed.
+Print Assumptions C16_history_without_writes.
+
 (* ledger, at object granularity: once every handle is freed no object is left, whatever happened before *)
 Theorem C16_ledger : forall acore cs x n,
   live (snd (fst (run_history acore (fst (run_history acore x cs)) (map CFree (seq 0 n))))) n = 0%nat.
